@@ -9,6 +9,7 @@ def opt(name, default=None):
     return args[args.index(name) + 1] if name in args else default
 allprops = [c['property_id'] for c in json.load(open('/verif/MANIFEST.json'))['checks']]
 props = opt('--props').split(',') if opt('--props') else allprops
+home = opt('--home', '/verif')      # where the checker code is taken from (a frozen copy keeps a long sweep consistent)
 only = set(opt('--only').split(',')) if opt('--only') else None
 patches = sorted(d for d in glob.glob('/verif/benign/*/') if only is None or os.path.basename(d.rstrip('/')) in only)
 
@@ -23,7 +24,7 @@ def one(d):
             return [(name, '*', 'STALE', a.stderr.strip()[:100])]
         for p in props:
             env = dict(os.environ, VERIF_REPO=tmp, VERIF_SUBRUN='1', VERIF_SUBRUN_OUT=tmp + '/out')
-            r = subprocess.run(['/venv/bin/python', '-m', 'sa.check', p], cwd='/verif', env=env, capture_output=True, text=True, timeout=900)
+            r = subprocess.run(['/venv/bin/python', '-m', 'sa.check', p], cwd=home, env=env, capture_output=True, text=True, timeout=900)
             if r.returncode != 0:
                 lines = [l for l in r.stdout.splitlines() if l.startswith(('FAIL', 'ANALYSIS-ERROR'))]
                 out.append((name, p, 'VIOLATION' if r.returncode == 1 else 'ANALYSIS-ERROR',
